@@ -16,7 +16,11 @@ def run(ctx):
     probe = Path(ctx.scratch) / "probe_reclist.tl"
     probe.write_text(PROBE_RECLIST)
     extra = [("probe_reclist", [probe], ["--tl2WhiteList=*"], "*", True)]
-    cres, thm, ref, ref_err, bins, berr, units = common_setup(ctx, PROPS, 3 if quick else 40, extra)
+    cres, thm, ref, ref_err, bins, berr, units = common_setup(ctx, PROPS, 3 if quick else 40, extra + [wide_spec(ctx)])
+    # TL2-origin schemas (.tl2): not modelled, model-free oracle only
+    t2units = tl2_origin_units(ctx, bins, 2 if quick else 20) if not berr else []
+    t2stats = {}
+    t2rngs = {u.name: random.Random(ctx.rng.getrandbits(64)) for u in t2units}
     nrand = 4 if quick else 40
     ntl1 = 4 if quick else 40
     nmut = 2 if quick else 6
@@ -140,8 +144,20 @@ def run(ctx):
                     samples.append({"schema": u.name, "kind": ops[j][1], "op": trunc(lines[j], 200), "go": trunc(go[j], 120),
                                     "model": trunc(mo[j], 120) if mo and mo[j] is not None else "(type outside the model)"})
 
+    def work2(u):
+        if u.error or not u.gen:
+            with lock:
+                unit_errors.append((u.name, u.error))
+            return
+        ubad, st = oracle_only_run("C03", u, t2rngs[u.name], 6 if quick else 40, nmut)
+        with lock:
+            bad.extend(ubad)
+            t2stats[u.name] = st
+
     with ThreadPoolExecutor(max_workers=8) as ex:
-        list(ex.map(work, units))
+        futs = [ex.submit(work, u) for u in units] + [ex.submit(work2, u) for u in t2units]
+        for f in futs:
+            f.result()
 
     for name, l, g, sig in bad[:30]:
         ctx.violation(sig, f"{name}: TL2 write/read/write is not the identity or the code panics: {trunc(l, 160)} -> {trunc(g, 160)}", {"unit": name, "op": l, "go": g})
@@ -151,7 +167,7 @@ def run(ctx):
         "checker_cmd": f"make -f Makefile.coq theories/{PROPS}.vo (coqc 8.16.1, full .vo build, in /verif/coq)",
         "trusted_base": trusted_base(thm),
         "theorems": thm["statements"], "assumptions_per_theorem": thm["assumptions"],
-        "evaluations": stats["rw_ops"] + stats["idem_ops"], "distinct_nontrivial": stats["valid_values"] + stats["go_accepts_mutated"],
+        "evaluations": stats["rw_ops"] + stats["idem_ops"] + sum(v["ops"] for v in t2stats.values()), "distinct_nontrivial": stats["valid_values"] + stats["go_accepts_mutated"],
         "rule": "per schema (cases.tl, goldmaster*.tl, random schemas, all generated with --tl2WhiteList=*): values from FillRandom and from "
                 "TL1-decoded type-directed wire values are written in TL2 by the generated code; those bytes, mutations of them and random "
                 "bytes are read and re-written by the generated code and by the extracted model (verdict, consumed length, re-written bytes "
@@ -161,8 +177,12 @@ def run(ctx):
         "op_kinds": {"rw2": stats["rw_ops"], "idem2": stats["idem_ops"]},
         "stats": stats, "correspondence": CORR, "correspondence_mismatches": len(mism), "oracle_failures": len(bad),
         "outside_model": skipped or "none: every unit's dump satisfies wf2",
+        "oracle_only_units_not_modelled": {"what": "TL2-origin schemas: internal/tlcodegen/test/tls/cases.tl2 and random .tl2 schemas (structs with 1-20 fields, "
+                                                   "optional fields, bits, reserved `_:T` fields incl. on the presence-block boundaries 7/15, unions, enums, arrays, maps, aliases): "
+                                                   "FillRandom values and byte mutations through the model-free oracle only (write/read/write identity, exact consumption, idempotence, reused object, no panic)",
+                                           "units": t2stats},
         "model_ops": stats.get("model_ops", 0),
-        "not_modelled": ["TL2-origin (.tl2) schemas: bit arrays, byte/uint64/bit primitives, omitted `_` fields, TL2 aliases",
+        "not_modelled": ["TL2-origin (.tl2) schemas: bit arrays, byte/uint64/bit primitives, omitted `_` fields, TL2 aliases (oracle only, see oracle_only_units_not_modelled)",
                          "bytes versions of generated types (--generateByteVersions)", "error classification (every read error is one verdict)",
                          "union elements without fields as stand-alone factory objects (their TL2 methods are no-ops of the registry item)"],
         "samples": samples or [{"note": "no ops ran"}],
